@@ -68,6 +68,7 @@ class Cli:
         self.models_data: Dict[str, Iterable[dict]] = {}  # -m/-l
         self.enable_datetime: bool = False  # --datetime
         self.strings_converters: bool = False  # --strings-converters
+        self.disable_str_serializable_types: List[str] = []  # --disable-str-serializable-types
         self.max_literals: int = -1  # --max-strings-literals
         self.merge_policy: List[ModelCmp] = []  # --merge
         self.structure_fn: STRUCTURE_FN_TYPE = None  # -s
@@ -102,17 +103,22 @@ class Cli:
         dict_keys_fields: List[str] = namespace.dict_keys_fields
         preamble: str = namespace.preamble
 
-        for name in namespace.disable_str_serializable_types:
-            registry.remove_by_name(name)
+        self.disable_str_serializable_types = namespace.disable_str_serializable_types
 
         self.setup_models_data(namespace.model or (), namespace.list or (), parser)
         self.validate(merge_policy, framework, code_generator)
         self.set_args(merge_policy, structure, framework, code_generator, code_generator_kwargs_raw,
                       dict_keys_regex, dict_keys_fields, disable_unicode_conversion, preamble)
 
-    def run(self):
+    def _setup_str_serializable_types(self):
         if self.enable_datetime:
             register_datetime_classes()
+        # Types are disabled after registration of datetime classes so it is possible to disable them too
+        for name in self.disable_str_serializable_types:
+            registry.remove_by_name(name)
+
+    def run(self):
+        self._setup_str_serializable_types()
         generator = MetadataGenerator(
             dict_keys_regex=self.dict_keys_regex,
             dict_keys_fields=self.dict_keys_fields
